@@ -43,5 +43,11 @@ for sid in sorted(os.listdir(base)):
         shutil.rmtree(ev, ignore_errors=True)
     out[sid] = fired
     print(sid, json.dumps(fired))
+mpath = os.path.join(base, 'detection_matrix.json')
 if pat is None:
-    json.dump(out, open(os.path.join(base, 'detection_matrix.json'), 'w'), indent=1)
+    json.dump(out, open(mpath, 'w'), indent=1)
+elif '--merge' in sys.argv:
+    # a round added later: only the matched seeds are re-run, the rest of the matrix is kept
+    full = json.load(open(mpath))
+    full.update(out)
+    json.dump(dict(sorted(full.items())), open(mpath, 'w'), indent=1)
